@@ -141,4 +141,21 @@ def handleNetParse : List String → Option String
     pure s!"{showNet m}\t{b2s v}"
   | _ => none
 
+/-- `e2erefuse cmdline hex(target) exit=…;sent=…;panic=…` (harness/cmd/sxdiff/e2erefuse.go): one run of the real binary
+    with this target argument.  `C02_parse_spec` / `C02_ipv6_refused` say what ParseIPNet makes of the string; at the process
+    boundary a refused argument is a non-zero exit with nothing sent — whatever else the command line holds
+    (--file, --exclude, --iface, an ARP cache) — and an accepted one (the controls) is a scan that runs. -/
+def handleE2ERefuse : List String → Option String
+  | [_cmd, hexs, obs] => do
+    let bs ← unhex hexs
+    let s := bytesToChars bs
+    match NetParse.parseIPNet s with
+    | none =>
+      let m := "exit=refused;sent=0;panic=0"
+      pure s!"{m}\t{b2s (obs == m)}"
+    | some _ =>
+      let v := obs == "exit=ok;sent=1;panic=0" || obs == "exit=ok;sent=0;panic=0"
+      pure s!"{if v then obs else "exit=ok;sent=_;panic=0"}\t{b2s v}"
+  | _ => none
+
 end Driver
